@@ -133,3 +133,90 @@ REGISTRY["C16"] = {
                             "pairs.derived": 30000, "hostile_inputs": 30000,
                             "pairs.common_prefix_then_boundary": 50000},
 }
+
+# ------------------------------------------------------------------------------------------- C15
+REGISTRY["C15"] = {
+    "level": "exploration",
+    "technique": "differential runtime monitor: derived message family packed by the real codec vs an independent wire encoder/decoder written from the protobuf spec; round-trip, unknown-field injection, hostile-bytes decoder monitor with allocation cap; fast/slow/reference varint agreement",
+    "level_text": ("Exploration: generated values of a message family covering every field type and container with "
+                   "boundary integers and special floats; hostile byte strings (random, truncated, bit-flipped, "
+                   "over-long/non-canonical varints, huge lengths, group wire types, trailing bytes)."),
+    "level_note": "Trusted: the wire reference in harness/src/c15.rs (wire module), written from the protobuf encoding documentation; the counting allocator.",
+    "rule": ("value case = one generated value of Scalars (21 fields: every scalar/bytesN/string type, field numbers "
+             "at 1-byte/2-byte/max tag boundaries), Containers (Option/Vec of scalars, strings, bytes, messages, "
+             "one-of enums with payloads), Choice or Result; checks pack_sz, bytes vs reference encoder (fallback: "
+             "per-field records via independent decoder), unpack==value, unknown fields of 4 wire types at every "
+             "record boundary. hostile case = one mutated/random byte string through every decoder. varint case = "
+             "one 1..10-byte varint through exact-buffer (slow) and padded (fast) decoders and the reference. "
+             "All cases count as non-trivial (each is boundary-directed); distinct = structural hash."),
+    "assumptions": ["conventions observed and then fixed in the reference: fields in declaration order, repeated fields unpacked, None absent, defaults emitted; if bytes differ the per-field records must still agree"],
+    "jobs": lambda tier: [
+        job("codec", "c15", shards=16, cases=q(tier, 25000, 1500000)),
+    ] + ([job("codec-release", "c15", flavour="release", shards=16, cases=1500000)] if tier == "thorough" else []),
+    "floors": lambda tier: {"distinct_nontrivial": 100000, "values.scalars": 10000, "values.containers": 10000,
+                            "hostile_inputs": 100000, "unknown_field_injections": 100000, "varints.len10": 1000,
+                            "varints.len1": 1000},
+}
+
+# ------------------------------------------------------------------------------------------- C19
+REGISTRY["C19"] = {
+    "level": "exploration",
+    "technique": "differential runtime monitor: CompressedDocument (serialised, re-parsed) vs a naive scan of the original text on generated texts/record divisions/patterns; every BitVector implementation vs a Vec<bool>",
+    "level_text": ("Exploration: generated texts (single-symbol, all-equal, periodic 1..8, de Bruijn-like, Fibonacci, "
+                   "skewed frequencies, alphabets of 1..4096 incl. 255/256/257 and code points up to u32::MAX) with "
+                   "record boundaries at every position class; all substrings up to length 6 (short texts) or 3, "
+                   "sampled longer, absent and boundary-crossing patterns; bit vectors up to 50 000 bits."),
+    "level_note": "Trusted: the naive scan in harness/src/c19.rs; select(k) is taken as the smallest index with rank == k (the relation the BitVector trait documents).",
+    "rule": ("doc case = one text + record division: construct, serialise, parse, then len/records/count/search for "
+             "every pattern of the set above, lookup of (sampled) every offset, retrieve/offset_of of every record, "
+             "second parse stability; a minority of cases use invalid divisions (empty record, boundary at len, "
+             "no records) where compressed and reference construct must agree on acceptance. bitvector case = one "
+             "bit pattern through Reference/rrr/cf_rrr/sparse: access, rank, rank0, access_rank at every (sampled) "
+             "index, select/select0 at every (sampled) rank. Non-trivial = text of >=2 symbols with a pattern "
+             "occurring >=2 times or >=2 records; bit vector of >=2 bits. distinct = hash of text+boundaries / bits."),
+    "assumptions": ["out-of-range lookups/retrieves are unspecified: only 'no panic' is required"],
+    "jobs": lambda tier: [
+        job("index", "c19", shards=16, timeout=1800, cases=q(tier, 120, 1500), max_len=q(tier, 2000, 100000),
+            max_bits=50000),
+        # one context with a >=25-level code tree needs ~1M symbols: release build, few cases
+        job("deep-context", "c19", flavour="release", shards=q(tier, 2, 16), timeout=1800, cases=q(tier, 1, 3),
+            max_len=q(tier, 1000000, 1600000), deep=1),
+    ] + ([job("index-release", "c19", flavour="release", shards=16, timeout=3000, cases=4000, max_len=100000,
+              max_bits=50000)] if tier == "thorough" else []),
+    "floors": lambda tier: {"distinct_nontrivial": 500, "docs": 500, "patterns": 100000, "bitvectors.rrr": 300,
+                            "docs.invalid_division": 20},
+}
+
+# ------------------------------------------------------------------------------------------- C12
+import c12_durability  # noqa: E402
+
+
+def _c12_dur_job(tier):
+    j = job("conc-durability", "c12conc", shards=q(tier, 8, 16), timeout=1200, runs=q(tier, 4, 40))
+    j["runner"] = c12_durability.runner
+    j["needs_shim"] = True
+    return j
+
+
+REGISTRY["C12"] = {
+    "level": "exploration",
+    "technique": "runtime monitors: reader output vs appended batches on generated size patterns and at swept truncation lengths; offline checker over intercepted write/fdatasync events and append return stamps for concurrent appenders",
+    "level_text": ("Exploration: batch sizes aimed at 0..23 bytes before (and a few bytes past) the 1 MiB boundaries, "
+                   "windows of truncation lengths around every frame start/end, split point and boundary; 2-16 "
+                   "threads appending under a system-call shim that gives a global logical clock."),
+    "level_note": "Trusted: LD_PRELOAD shim (every write/fdatasync on the log file is seen; checked by requiring a traced write for every batch), Cursor-backed reader, harness frame-size arithmetic (self-checked by the on-target counter).",
+    "rule": ("format case = one log of 1-100 batches (1 byte .. ~1 MiB, sized to end d in 0..23 bytes before a block "
+             "boundary or just past it), read back whole and at every cut in windows around all marks plus sampled "
+             "cuts; reader must yield exactly the whole batches before the cut, then end or error. conc case = one "
+             "run of N threads x M appends: file has each batch once, whole, contiguous, in real-time order; every "
+             "append's return is preceded by an fdatasync that began after its write ended. Non-trivial = log with "
+             ">=1 split/padded batch; run with coalesced appends or fsyncs. distinct = hash of batch end offsets / run."),
+    "assumptions": ["a complete batch before the cut must be returned (the title's 'loses only the tail')"],
+    "jobs": lambda tier: [
+        job("format", "c12", shards=16, timeout=1200, cases=q(tier, 6, 120), cuts=q(tier, 400, 4000)),
+        _c12_dur_job(tier),
+    ],
+    "floors": lambda tier: {"distinct_nontrivial": 40, "batches.split_across_boundary": 50,
+                            "batches.sized_for_boundary": 50, "truncations.inside_a_frame": 5000,
+                            "durability.appends_checked": 3000},
+}
